@@ -119,8 +119,8 @@ def gen_configs(rng, quick):
     return out
 
 
-# the noisy incumbent swap is known to lose the point on this configuration (found by steering noisy runs:
-# large noise, small budget); it is always part of the panel so the finding is re-confirmed on every run
+# regression witness: before commit 377f545 the noisy incumbent swap lost the point on this configuration
+# (row 4 recorded the yval of row 2); it stays in the panel so a return of the defect is re-found at once
 WITNESS_SWAP = dict(D=2, mode="auto", nfs=10, sigma=1.0, budget=100, seed=2, again=False)
 
 
@@ -329,6 +329,12 @@ def run_many(cfgs, procs=10):
 
 # ----------------------------------------------------------------------------- monitor
 
+# Clauses that are STRICTER than the text of the property (consistency facts the unchanged code satisfies
+# and the models rely on).  They never raise a violation by themselves: the plug-in treats a failure as a
+# broken correspondence (no-failing-input-found path) unless a clause of the text fails too.
+STRICT_KEYS = {"func-count-consistent", "row-rewritten", "row-x-is-inverse", "row-u-evaluated",
+               "result-iterations", "result-x-final"}
+
 def monitor(rec):
     """Every clause of C19 on one run record.  Returns [(key, message)]."""
     out = []
@@ -368,7 +374,7 @@ def monitor(rec):
                 continue
             ui, xi = nums(u[i]), nums(x[i])
             if ui not in evaluated:
-                bad("row-point-evaluated", f"{where}: recorded u[{i}]={ui} is not an evaluated internal point")
+                bad("row-u-evaluated", f"{where}: recorded u[{i}]={ui} is not an evaluated internal point")
             if x_of_u is not None and x_of_u[i] != xi:
                 bad("row-x-is-inverse", f"{where}: recorded x[{i}]={xi} != inverse_transf(u[{i}])={x_of_u[i]}")
             ob = obs_at(xi, upto)
@@ -449,9 +455,9 @@ def monitor(rec):
     if r0 != fin["x0"] or (fin["user_x0"] is not None and r0 != fin["user_x0"]):
         bad("result-agrees", f"result.x0={r0}, optimiser x0={fin['x0']}, user x0={fin['user_x0']}")
     if rx != fin["x"]:
-        bad("result-agrees", f"result.x={rx} != final optimiser x={fin['x']}")
+        bad("result-x-final", f"result.x={rx} != final optimiser x={fin['x']}")
     if res.get("iterations") != fin["iter"]:
-        bad("result-agrees", f"result.iterations={res.get('iterations')} != final iteration counter {fin['iter']}")
+        bad("result-iterations", f"result.iterations={res.get('iterations')} != final iteration counter {fin['iter']}")
     # copies
     if rec["result_changed"]:
         bad("result-copies", f"result fields {rec['result_changed']} changed after the optimiser's own objects were changed in place"
@@ -479,13 +485,19 @@ def monitor(rec):
 
 
 def swap_report(rec):
-    """Loop iterations at which the noisy re-evaluation swapped the incumbent value for an earlier
-    iterate's while the incumbent point kept by the loop (u_best) stayed: [(loop_iter, poll_iteration, row j)]."""
+    """Loop iterations at which the noisy end-of-iteration re-estimation swapped the incumbent for an
+    earlier iterate: the incumbent value after the iteration is not the value of the row just written.
+    [(loop_iter, poll_iteration, row j swapped in, incumbent point == point of row j, finished)]"""
     out = []
+    if rec.get("crash") or rec["final"]["level"] == 0:
+        return out
     for s in rec.get("probes", []):
-        if s["inc_u"] != s["inc_u_best"] and s.get("yval"):
-            owner = [j for j, y in enumerate(s["yval"]) if y == s["inc_yval"]]
-            out.append((s["loop_iter"], s["poll_iteration"], owner[0] if owner else None, bool(s["is_finished"])))
+        rows = s.get("yval")
+        if s["do_poll_step"] and rows and len(rows) > 1 and rows[-1] != s["inc_yval"]:
+            owner = [j for j, y in enumerate(rows) if y == s["inc_yval"]]
+            j = owner[0] if owner else None
+            same_point = j is not None and nums(s["u"][j]) == s["inc_u_best"]
+            out.append((s["loop_iter"], s["poll_iteration"], j, same_point, bool(s["is_finished"])))
     return out
 
 
